@@ -75,7 +75,7 @@ def run_component(c, tier):
     if kind == "kani":
         return kani.run_harnesses(c)
     if kind == "native":
-        return sidecar.native_eval(c)
+        return sidecar.native_eval(c, tier)
     raise ValueError(kind)
 
 
